@@ -1097,6 +1097,9 @@ func TestVerifC13(t *testing.T) {
 	// ---- the same with boundary values and port vectors (round 6)
 	h.valueDocs()
 
+	// ---- the grammar of upstream lines (round 7)
+	h.upstreamDocs()
+
 	// ---- random mutations of the golden inputs
 	n := out.Scale(700, 6000)
 	for i := 0; i < n; i++ {
